@@ -28,16 +28,26 @@ pub mod verif_proofs {
 
     /// The lifecycle of one session as the sync layer emits it:
     ///   SessionStarted, SyncStarted, SyncFinished{sync metrics}, [LiveModeStarted], SessionFinished{final metrics}
-    /// Step `k` of that script (k = 0..5); with `live` false the LiveModeStarted step is a no-op.
+    /// Step `k` of that script (k = 0..5); with `live` false the LiveModeStarted step is a no-op. In
+    /// live mode an operation is received (OperationReceived carrying the live counts so far) before
+    /// the session finishes.
     fn step(a: &mut Aggregator, id: u64, k: u8, b: &SessionBytes, live: bool) {
         let r = match k {
             0 => a.process(ev(id, TopicLogSyncEvent::SessionStarted)),
             1 => a.process(ev(id, TopicLogSyncEvent::SyncStarted { metrics: Metrics { outbound_sync_bytes: b.sent_sync, inbound_sync_bytes: b.recv_sync, ..Default::default() } })),
             2 => a.process(ev(id, TopicLogSyncEvent::SyncFinished { metrics: sync_metrics(b) })),
-            3 => if live { a.process(ev(id, TopicLogSyncEvent::LiveModeStarted)) } else { None },
+            3 => if live {
+                let r = a.process(ev(id, TopicLogSyncEvent::LiveModeStarted));
+                std::mem::forget(r);
+                a.process(ev(id, TopicLogSyncEvent::OperationReceived { operation: Box::new(dummy_operation()), metrics: final_metrics(b) }))
+            } else { None },
             _ => a.process(ev(id, TopicLogSyncEvent::SessionFinished { metrics: if live { final_metrics(b) } else { sync_metrics(b) } })),
         };
         std::mem::forget(r);
+    }
+
+    fn dummy_operation() -> Operation<()> {
+        Operation { hash: p2panda_core::Hash::from_bytes([0u8; 32]), header: p2panda_core::Header::<()>::default(), body: None }
     }
 
     /// One complete session: totals = exactly that session's bytes, counted once.
